@@ -25,7 +25,9 @@ def plans(tier):
                 # additional creators (privileged-creator versions): alice holds the creators' level
                 (2, "12", 2, "{1}", "FALSE", "FALSE", "FALSE", 7, '{"alice"}')]
     out = []
-    for ver in ["1", "2", "6", "10", "11", "12", "org.matrix.hydra.11"]:
+    # one or two versions per resolution algorithm and event format (what differs between the versions of one
+    # algorithm are the auth rules, which are C07's subject)
+    for ver in ["1", "2", "10", "12", "org.matrix.hydra.11"]:
         out.append((1, ver, 2, "{1, 2}", "FALSE", "TRUE", "FALSE"))
         out.append((2, ver, 2, "{1}", "TRUE", "FALSE", "FALSE"))
         out.append((3, ver, 2, "{1}", "FALSE", "FALSE", "FALSE"))
@@ -36,7 +38,6 @@ def plans(tier):
         out.append((2, ver, 2, "{1}", "TRUE", "FALSE", "TRUE", 7))
         out.append((3, ver, 2, "{1}", "TRUE", "TRUE", "TRUE"))
         out.append((3, ver, 2, "{1, 2}", "FALSE", "FALSE", "TRUE"))
-    out.append((2, "10", 2, "{1}", "FALSE", "FALSE", "TRUE", 5))
     for ver in ["12", "org.matrix.hydra.11"]:
         out.append((2, ver, 2, "{1, 2}", "FALSE", "TRUE", "FALSE", None, '{"alice"}'))
         out.append((1, ver, 2, "{1}", "TRUE", "FALSE", "TRUE", None, '{"bob"}'))
@@ -44,8 +45,11 @@ def plans(tier):
     return out
 
 
-def generate(ctx):
-    """Runs every plan (quick tier: concurrently, a few TLC workers each); returns the de-duplicated query records."""
+def generate(ctx, on_batch=None):
+    """Runs every plan (quick tier: concurrently, a few TLC workers each).  Without on_batch: returns the
+    de-duplicated query records.  With on_batch: hands each plan's new records over as soon as they exist (the
+    thorough tier produces about a million queries: they are replayed plan by plan and not kept)."""
+    import hashlib
     from concurrent.futures import ThreadPoolExecutor
     d = ctx._spec_dir()
     jobs = []
@@ -57,19 +61,36 @@ def generate(ctx):
         with open(os.path.join(d, cfg), "w") as f:
             f.write(cfg_text(start, ver, mf, ts, idd, triples=tri, forkfrom=ff, dishonest=dis, addl=addl))
         jobs.append(cfg)
+    seen = set()
+    out = []
+
+    def fresh(records):
+        new = []
+        for rec in records:
+            k = hashlib.sha1(json.dumps(rec, sort_keys=True).encode()).digest()
+            if k not in seen:
+                seen.add(k)
+                new.append(rec)
+        return new
+
     if ctx.tier == "quick":
         with ThreadPoolExecutor(max_workers=4) as ex:
             results = list(ex.map(lambda cfg: ctx.tlc("Room_gen", cfg, timeout=3000, workers=max(2, ctx.workers // 4)), jobs))
-    else:
-        results = [ctx.tlc("Room_gen", cfg, timeout=6000) for cfg in jobs]
-    seen = set()
-    out = []
-    for r in results:
-        for rec in r.records:
-            k = json.dumps(rec, sort_keys=True)
-            if k not in seen:
-                seen.add(k)
-                out.append(rec)
+        for r in results:
+            out += fresh(r.records)
+        if on_batch:
+            on_batch(out)
+            return []
+        return out
+    for cfg in jobs:
+        r = ctx.tlc("Room_gen", cfg, timeout=6000)
+        new = fresh(r.records)
+        r.records = None
+        if on_batch:
+            if new:
+                on_batch(new)
+        else:
+            out += new
     return out
 
 
